@@ -411,7 +411,19 @@ def analyse_row_builder(name, fn):
     if e.kind in ("guard", "return") and not (has_nnz and e is zg):
       raise ExtractError(f"{name}: unexplained early return after the allocation (line {e.node.lineno})")
   aux = sorted({e.counter for e in allocs if e.counter in AUX_COUNTERS})
+  # rows claimed by the Newton block list entry (efc_jtdaj_nrow) vs rows allocated
+  bl = [e for e in evs if e.kind == "store" and e.array == "efc_jtdaj_nrow_out"]
+  if len(bl) > 1:
+    raise ExtractError(f"{name}: several efc_jtdaj_nrow stores")
+  block_nrow = src(bl[0].value) if bl else None
+  if block_nrow is None:
+    block_ok = True
+  elif perrow:
+    block_ok = block_nrow == f"wp.min({src(ra.amount)}, njmax_in - {ra.var})"
+  else:
+    block_ok = block_nrow == str(k)
   return {
+    "block_nrow": block_nrow, "block_ok": block_ok,
     "name": name, "counter": "nefc_out", "cap": "njmax", "tcounter": tcounter, "rows": 0 if dynamic else k,
     "perrow": perrow, "cmp": cmp_, "off": off, "loop": loop, "deferred": deferred, "has_nnz": has_nnz,
     "ncmp": ncmp, "noff": noff, "adr_before": adr_before, "rnz_before": rnz_before, "rnz_exact": rnz_exact,
